@@ -5,6 +5,10 @@ def verify_safetynet_timestamp(timestamp_ms: int) -> None:
     """Handle time drift between an RP and the Google SafetyNet API servers with a window of
     time within which the response is valid
     """
+    # A timestamp that is not an integer number of milliseconds (e.g. NaN) can't be compared
+    if not isinstance(timestamp_ms, int):
+        raise ValueError(f"Payload timestamp {timestamp_ms} was not an integer")
+
     # Buffer period in ms
     grace_ms = 10 * 1000
     # Get "now" in ms
